@@ -25,6 +25,61 @@ def clear_registry():
     Variable._cache_.clear()
 
 
+_LRU = None
+_since_forget = 0
+
+
+def _library_lru_caches():
+    """every functools.lru_cache of the library's classes (methods and the getters of properties)"""
+    global _LRU
+    if _LRU is None:
+        import sys
+        found = {}
+        for name, mod in list(sys.modules.items()):
+            if name != "entity_query_language" and not name.startswith("entity_query_language."):
+                continue
+            for cls in list(vars(mod).values()):
+                if not isinstance(cls, type):
+                    continue
+                for attr in list(vars(cls).values()):
+                    f = attr.fget if isinstance(attr, property) else attr
+                    if hasattr(f, "cache_clear") and hasattr(f, "cache_info"):
+                        found[id(f)] = f
+        _LRU = list(found.values())
+    return _LRU
+
+
+def forget_expressions(every=10):
+    """Long-lived workers: the library keeps every expression ever built - in a class-level map (id -> expression), in
+    unbounded lru_caches keyed by the expression, and in one class-level graph of all expression nodes - and never drops
+    one (~30 MB per case of C18's thorough tier; found when the per-worker memory limit stopped that tier). Expression ids
+    come from a counter that only grows and the caches are keyed by them, so that forgetting the expressions of FINISHED
+    cases changes nothing for later ones. Done every `every` cases, between cases (no query is live then)."""
+    global _since_forget
+    _since_forget += 1
+    if _since_forget < every:
+        return
+    _since_forget = 0
+    try:
+        import sys
+        for f in _library_lru_caches():
+            f.cache_clear()
+        SymbolicExpression._id_expression_map_.clear()
+        from entity_query_language.rxnode import RWXNode
+        if RWXNode._graph.num_nodes():
+            RWXNode._graph.clear()
+        # (the graph is not traversed by the collector: what it held becomes collectable only now; a finaliser of a dead
+        # query that still walks the emptied graph fails on its own, there is no live query it could touch between cases)
+        hook = sys.unraisablehook
+        sys.unraisablehook = lambda *a, **k: None
+        try:
+            gc.collect()
+        finally:
+            sys.unraisablehook = hook
+    except Exception:
+        pass
+
+
 def run_isolated(fn, *args, caching=True):
     """Run fn(*args) in a fresh copy of the pristine context with a clean registry."""
     ctx = _PRISTINE.copy()
